@@ -5694,6 +5694,9 @@ class PyCdlib:
                 encoding = 'utf-8'
             udf_rec = rec  # type: Optional[udfmod.UDFFileEntry]
             while udf_rec is not None:
+                # Each component of the path carries its own encoding.
+                if udf_rec.file_ident is not None:
+                    encoding = udf_rec.file_ident.encoding
                 ident = udf_rec.file_identifier()
                 if ident == b'/':
                     name = b''
